@@ -165,6 +165,13 @@ theorem C14_discard (rec : String → Option Val → Val → Except Err Val) (pa
   simp only [keepArgs, List.mem_filter, hn] at hmem
   exact absurd hmem.2 (by simp)
 
+/-- in particular a `None` carried from the previous class (an explicit `null`, or the completed default of an
+    `Optional` parameter) does not survive when the new class's parameter of that name is a non-Optional scalar -/
+theorem C14_discard_none (rec : String → Option Val → Val → Except Err Val) (params : List IParam) (pia : KV)
+    (e : String × Val) (p : IParam) (t : String) (hp : findParam params e.1 = some p) (hty : p.ty = .scalar t)
+    (ht : t ≠ "NoneType") (hn : isNone e.2 = true) : e ∉ keepArgs rec params pia :=
+  keepArgs_drops_none rec params pia e p t hp hty ht hn
+
 /-- the end of the parse: the stored init_args become exactly the parameters of the named class, in signature order -/
 theorem C14_checked_final (E : ClassEnv) (fuel : Nat) (cp : String) (ia dk : KV) (s : Val)
     (h : finalize E (fuel + 1) (.spec (some cp) ia dk) = .ok s) :
